@@ -70,10 +70,12 @@ def usage_cells():
 
 def cases(tier, seed):
     kinds = list(KINDS)
+    i = 0
     for sel in itertools.permutations(kinds, 3):
         for toks in HOLDER_SETS:
             if any(fails(k, toks, "in-file") for k in sel):
-                yield {"k": "mix", "sel": list(sel), "target": "in-file", "toks": list(toks)}
+                i += 1
+                yield {"k": "mix", "sel": list(sel), "target": "in-file", "toks": list(toks), "variant": i % 4}
     for sel in itertools.combinations(kinds, 3):
         yield {"k": "mix", "sel": list(sel), "target": "force-dot-license", "toks": list(TOKENS)}
     for tpl in ("nolicence", "nocopyright", "nothing"):
@@ -85,12 +87,28 @@ def cases(tier, seed):
             yield {"k": "usage", "variant": variant, **cell}
 
 
+VPREF = ["", "q_", "z9", "m-"]
+
+
+def vname(name, v):
+    d, _, b = name.rpartition("/")
+    return (d + "/" if d else "") + VPREF[v % len(VPREF)] + b
+
+
 def ev_mix(c) -> R:
+    """Arguments are relative to cwd = root and file names carry a variant
+    prefix: the order in which the tool walks its set of paths is then a
+    deterministic function of the names, and different variants give
+    different orders."""
+    from ..cli import run_cli
+
     r = R()
+    v = c.get("variant", 0)
     root = fresh_dir("c11")
     recipe = {"other/untouched.py": "# SPDX-FileCopyrightText: 2000 Nobody\nuntouched()\n"}
     for k in c["sel"]:
-        recipe.update(KINDS[k][1])
+        for n, spec in KINDS[k][1].items():
+            recipe[vname(n, v)] = spec
     materialise(root, recipe)
     holder = holder_for(c["toks"])
     failing = {k for k in c["sel"] if fails(k, c["toks"], c["target"])}
@@ -98,33 +116,48 @@ def ev_mix(c) -> R:
     if c["target"] == "force-dot-license":
         argv.append("--force-dot-license")
     before = read_tree(root)
-    res = annot.annotate(root, argv, [root / KINDS[k][0] for k in c["sel"]])
+    names = [vname(KINDS[k][0], v) for k in c["sel"]]
+    res = run_cli(["annotate", *argv, *names], cwd=str(root))
     after = read_tree(root)
-    label = f"annotate {argv} {[KINDS[k][0] for k in c['sel']]}"
+    order = []
+    for l in res.stdout.splitlines():
+        if l.startswith(("Successfully", "Error")):
+            hit = [n for n in names if n in l]
+            if hit:
+                order.append(max(hit, key=len))
+    label = f"annotate {argv} {names} (processed: {order})"
     if res.exc:
         r.violation(f"crash|{c['target']}", f"{label}: {res.exc_repr}")
         return r
     if res.exit_code != (1 if failing else 0):
         r.violation(f"exit-status|{c['target']}", f"{label}: failing files {sorted(failing)}, exit status {res.exit_code}; stdout {res.stdout[-300:]!r}")
     for k in c["sel"]:
-        name = KINDS[k][0]
+        name = vname(KINDS[k][0], v)
         mine = {name, name + ".license"}
         if k in failing:
             for p in mine:
                 if after.get(p) != before.get(p):
-                    what = "created" if p not in before else "modified"
+                    what = "created" if p not in before else ("removed" if p not in after else "modified")
                     r.violation(f"failing-file-touched|{c['target']}|{k}|{what}",
                                 f"{label}: {name} cannot be annotated but {p} was {what}: before {before.get(p)!r} after {after.get(p)!r}")
         else:
+            if name not in after:
+                r.violation(f"healthy-file-removed|{c['target']}|{k}", f"{label}: {name} disappeared")
+                continue
             info = annot.lint_file_info(root, name)
             want = f"SPDX-FileCopyrightText: 2020 {holder}"
             if info is None or want not in info[0] or "MIT" not in info[1]:
                 r.violation(f"healthy-file-not-annotated|{c['target']}|{k}", f"{label}: healthy file {name} reads back {info}")
+    sel_names = {vname(KINDS[k][0], v) for k in c["sel"]}
     for p in set(before) | set(after):
-        if not any(p in (KINDS[k][0], KINDS[k][0] + ".license") for k in c["sel"]) and before.get(p) != after.get(p):
+        if not any(p in (n, n + ".license") for n in sel_names) and before.get(p) != after.get(p):
             r.violation(f"unrelated-file-touched|{c['target']}", f"{label}: {p} changed")
     r.outcome = f"exit{res.exit_code}|failing={len(failing)}"
     r.tags.append("mix")
+    if failing and order:
+        first_fail = next((i for i, o in enumerate(order) if any(o == vname(KINDS[k][0], v) for k in failing)), None)
+        if first_fail is not None:
+            r.tags.append("failing-first" if first_fail == 0 else "failing-later")
     r.nontrivial = bool(failing)
     return r
 
@@ -222,6 +255,8 @@ def vacuity(st):
     for t in _EV:
         if st.tags.get(t, 0) < 5:
             return f"slice {t} did not run"
+    if st.tags.get("failing-first", 0) < 20 or st.tags.get("failing-later", 0) < 20:
+        return f"processing orders not both covered: {dict(st.tags)}"
     return None
 
 
